@@ -18,9 +18,9 @@ BINS = [b for b in ["h_chainview", "h_restartview"] if os.path.exists(os.path.jo
 LEVEL = "proof"
 MANIFEST = {
     "category": "proof",
-    "text": "Coq theorems over a model of the monitor's chain bookkeeping (transactions_confirmed, best_block_updated incl. reorg branch, block_confirmed maturation, blocks_disconnected, transaction_unconfirmed): all admissible deliveries of a chain give the same view; irreversible conclusions only ANTI_REORG_DELAY deep (any operation list); re-delivery is idempotent; forks shallower than ANTI_REORG_DELAY leave no trace, also when monitor updates arrive after the closing transaction confirmed (their entries are stamped with the spend's height and retracted with it). Real monitors are cloned and fed the same chain and the same monitor updates under ten delivery styles with fork detours (incl. rewinding ones) and every timing of the updates relative to confirmation and burial, judged on the real monitors (equal views at the tip, every awaiting entry stamped with the height and block of its transaction, nothing irreversible before burial), and the model must predict get_relevant_txids after every operation.",
+    "text": "Coq theorems over a model of the monitor's chain bookkeeping (transactions_confirmed, best_block_updated incl. reorg branch, block_confirmed maturation, blocks_disconnected, transaction_unconfirmed): all admissible deliveries of a chain give the same view; irreversible conclusions only ANTI_REORG_DELAY deep (any operation list); re-delivery is idempotent; forks shallower than ANTI_REORG_DELAY leave no trace, also when monitor updates arrive after the closing transaction confirmed (their entries are stamped with the spend's height and retracted with it). Real monitors are cloned and fed the same chain and the same monitor updates under ten delivery styles with fork detours (incl. rewinding ones) and every timing of the updates relative to confirmation and burial, judged on the real monitors (equal views at the tip, every awaiting entry stamped with the height and block of its transaction, nothing irreversible before burial), and the model must predict get_relevant_txids after every operation. Round 2: the boundary of a disconnection (the fork point's block is kept, for list entries and for the pending alternative funding), restart as an operation under which the view is invariant, and the any-input rule of the block filter (whole-block delivery finds what per-transaction delivery finds) are theorems; the clones are told chains with batched children in their parent's block (parent-spending input at any position), fork points exactly at confirmation blocks, pending splices and monitor restarts, and must show after every operation that a restart would conclude nothing before burial; a second harness restarts a real node (manager + monitors) at every depth around the confirmation of a close, with and without a shallow reorg, and compares it step by step with the same node not restarted.",
     "note": "Trusted: Coq kernel, rs2v (confirmation_threshold), harness + LDK test utilities. The model is hand-written and trace-validated; claim regeneration inside OnchainTxHandler after reorgs and the ChannelManager side are validated at the observables only.",
-    "technique": "machine-checked proof in Coq (invariants over operation lists) + differential execution of real monitor clones under different chain deliveries + per-operation model correspondence",
+    "technique": "machine-checked proof in Coq (invariants over operation lists) + differential execution of real monitor clones under different chain deliveries, fork detours and restarts + differential execution of a real node with and without restart + per-operation model correspondence (get_relevant_txids, filter_block)",
 }
 KNOWN_WHAT = {
     "F2-unlisted-alternative-funding-survives-confirm-reorg": "a confirmed, not yet locked splice transaction is in nobody's get_relevant_txids once the channel is closed, and the reorg branch of best_block_updated does not forget it: after a reorganisation delivered through Confirm the monitor still takes the splice for confirmed",
@@ -171,8 +171,10 @@ def _parse_trace(t):
         i, d = x.split(":")
         deltas[int(i)] = int(d)
 
+    skip = int(hd[4][1:]) if len(hd) > 4 and hd[4][1:].isdigit() else None
+
     def tx(i):
-        d = deltas.get(i, -1)
+        d = deltas.get(i, -1) if i != skip else -1
         return "mkTx %d [%s]" % (i, "(0, %d)" % d if d >= 0 else "")
     ops, exp = [], []
     for tok in body.split(" "):
@@ -182,7 +184,7 @@ def _parse_trace(t):
         # transaction_unconfirmed: the monitor and its OnchainTxHandler each retract from their own list
         # (only the one that has an entry for that txid), the model keeps one merged list; single
         # unconfirmations are therefore compared at the end of each batch (the next non-R operation)
-        exp.append(None if op[0] == "R" else sorted(set(tuple(int(v) for v in o.split(".")) for o in obs.split(",") if o)))
+        exp.append(None if op[0] == "R" else sorted(set(tuple(int(v) for v in o.split(".")) for o in obs.split(",") if o and int(o.split(".")[0]) != skip)))
         k = op[0]
         if k == "C":
             blk, txs = op[1:].split(":")
